@@ -1440,6 +1440,8 @@ fn all_paths(max_depth: usize) -> Vec<Vec<Nest>> {
 fn main() {
     let args = Args::parse("C03");
     util::install_quiet_panic_hook();
+    // in-process work runs on VERIF_WORKERS threads (the machine is shared)
+    let _ = rayon::ThreadPoolBuilder::new().num_threads(vf::default_workers().max(1)).build_global();
     let mut out = Outcome::new("C03");
     out.max_reports = 10;
     let mut ev = Evidence::new(
@@ -1594,7 +1596,7 @@ fn main() {
     process(&mut run, cases, Some(trees), sw);
 
     // ---- CLI leg on a sample
-    let n_cli = args.tier.pick(40usize, 400usize);
+    let n_cli = args.tier.pick(24usize, 400usize);
     let pool = std::mem::take(&mut run.cli_pool);
     let stride = (pool.len() / n_cli.max(1)).max(1);
     let sample: Vec<&(Case, Judged)> = pool.iter().step_by(stride).take(n_cli).collect();
